@@ -1,6 +1,8 @@
 (* C03  Only users with effective write permission can add a message to a topic.
-   Theorems only, about the topic model Sys/Topic.v (one group topic; the self/search
-   and system topics are outside this model, see DESIGN.md section 7). *)
+   Theorems only, about the topic model Sys/Topic.v (one group topic) and the lifecycle
+   model Sys/TopicLife.v around it (deletion window, suspension of accounts with the full test
+   of hub.topicsStateForUser over every topic category, peer-to-peer topics, me/fnd, sys with
+   its subscribers); see DESIGN.md section 5/C03. *)
 From Coq Require Import ZArith NArith List Bool.
 From Tinode Require Import Base.Util Pure.Acs Sys.Topic Sys.TopicTac Sys.TopicFrame Sys.TopicNum Sys.TopicOut Sys.TopicNumThm Sys.TopicPub Sys.TopicMarks Sys.TopicMeta Sys.TopicCoh Sys.TopicLife Sys.TopicLifeProofs.
 Import ListNotations.
@@ -98,17 +100,21 @@ Proof. exact (xaccept_iff dr nr sm). Qed.
 
 (* every history of requests, deletions in two halves, suspensions, faults and crashes reaches a state
    satisfying the invariants the theorems need *)
-Theorem c03x_reachable : forall s h, fresh s -> xinv (fst (xrun dr nr sm (xinit s) h)).
-Proof. intros s h F. apply xinv_xrun. apply xinv_init. exact F. Qed.
+(* ([xinit_pop s subs ps]: the group topic's rows s, the subscribers subs of 'sys', any number of peer-to-peer
+   topics with rows ps; nothing loaded but 'sys') *)
+Theorem c03x_reachable : forall s subs ps h, fresh s -> Forall fresh ps ->
+  xinv (fst (xrun dr nr sm (xinit_pop s subs ps) h)).
+Proof. intros s subs ps h F FP. apply xinv_xrun. apply xinv_init_pop; assumption. Qed.
 
-Theorem c03x_accepted_iff_history : forall s h sid content noecho, fresh s ->
-  let x := fst (xrun dr nr sm (xinit s) h) in
+Theorem c03x_accepted_iff_history : forall s subs ps h sid content noecho, fresh s -> Forall fresh ps ->
+  let x := fst (xrun dr nr sm (xinit_pop s subs ps) h) in
   ((exists n, first_reply (snd (xstep dr nr sm x (EBase NoFault (OPub sid content noecho)))) sid = Some (Ctrl 202 [(P_seq, n)]))
    <-> xaccepts sm x sid = true).
-Proof. intros s h sid content noecho F x. apply c03x_accepted_iff. apply (c03x_reachable s h F). Qed.
+Proof. intros s subs ps h sid content noecho F FP x. apply c03x_accepted_iff. apply (c03x_reachable s subs ps h F FP). Qed.
 
 (* rejected, for any fault plan: exactly one error reply to the sender, the stores (topic rows, accounts,
-   sys) are what they were; unless the plan is a crash, so is everything in memory *)
+   sys, the rows of every peer-to-peer topic) are what they were; unless the plan is a crash, so is everything
+   in memory *)
 Theorem c03x_rejected_no_effect : forall x f sid content noecho, xwf x -> xaccepts sm x sid = false ->
   exists code, 400 <= code /\
     snd (xstep dr nr sm x (EBase f (OPub sid content noecho))) = [(sid, Ctrl code [])] /\
@@ -132,16 +138,19 @@ Theorem c03x_search_topic_refuses : forall x sid content, exists code, 400 <= co
   xstep dr nr sm x (EPubFnd sid content) = (fst (del_finish x), snd (del_finish x) ++ [(sid, Ctrl code [])]).
 Proof. exact (xstep_pub_fnd dr nr sm). Qed.
 
-(* sys: any logged-in author, no attachment; the message gets the next number and is stored *)
-Theorem c03x_sys_accepts_without_attachment : forall x sid content, sess_uid sm sid <> 0%N -> sys_inv x ->
+(* sys: any logged-in author, no attachment; the message gets the next number and is stored; the subscribers
+   of sys get the push receipt.  ([x_sys_ro x = false] holds in every reachable state: c03s_sys_never_read_only) *)
+Theorem c03x_sys_accepts_without_attachment : forall x sid content, sess_uid sm sid <> 0%N -> sys_inv x -> x_sys_ro x = false ->
   publish_sys sm x NoFault sid content =
     (set_sys (x_sys_lastid x + 1) (x_sys_lastid x + 1)
              (x_sys_msgs x ++ [mkMsg (x_sys_lastid x + 1) (sess_uid sm sid) content 0]) x,
-     [(sid, Ctrl 202 [(P_seq, x_sys_lastid x + 1)])]).
+     (sid, Ctrl 202 [(P_seq, x_sys_lastid x + 1)]) :: sys_push x (x_sys_lastid x + 1) (sess_uid sm sid)).
 Proof. exact (publish_sys_accepts sm). Qed.
 Theorem c03x_sys_failed_stores_nothing : forall x f sid content,
-  (exists n, snd (publish_sys sm x f sid content) = [(sid, Ctrl 202 [(P_seq, n)])]) \/
-  ((snd (publish_sys sm x f sid content) = [(sid, Ctrl 500 [])] \/ snd (publish_sys sm x f sid content) = []) /\
+  (exists n, snd (publish_sys sm x f sid content) = (sid, Ctrl 202 [(P_seq, n)]) :: sys_push x n (sess_uid sm sid)) \/
+  ((snd (publish_sys sm x f sid content) = [(sid, Ctrl 500 [])] \/
+    (x_sys_ro x = true /\ snd (publish_sys sm x f sid content) = [(sid, Ctrl 403 [])]) \/
+    snd (publish_sys sm x f sid content) = []) /\
    x_sys_msgs (fst (publish_sys sm x f sid content)) = x_sys_msgs x /\
    st (xb (fst (publish_sys sm x f sid content))) = st (xb x) /\
    (is_crash f = false -> x_sys_lastid (fst (publish_sys sm x f sid content)) = x_sys_lastid x /\
@@ -149,24 +158,114 @@ Theorem c03x_sys_failed_stores_nothing : forall x f sid content,
 Proof. exact (publish_sys_cases sm). Qed.
 
 (* suspension: the loaded topic of the suspended owner becomes read-only (and writable again on resume) *)
-Theorem c03x_suspension_marks_loaded_topic_partial : forall x u b c a,
+Theorem c03x_suspension_marks_loaded_topic_partial : forall x u b c a, u <> 0%N ->
   ca (xb x) = Some c -> c_owner c = u -> alookup u (users (st (xb x))) = Some a -> memN u (x_susp x) = negb b ->
   x_ro (suspend x NoFault u b) = b.
 Proof. exact suspend_marks. Qed.
+
+(* ---- which topics a suspension marks: the full test of hub.topicsStateForUser, every category ---- *)
+
+(* the test, per topic category (m = "u is in topic.perUser", o = topic.owner): 'me' and 'fnd' never; a group
+   topic and 'sys' only through ownership - and 'sys' and the peer-to-peer topics have no owner -; a
+   peer-to-peer topic through membership *)
+Theorem c03s_suspension_test_by_category : forall m o u,
+  state_pred CatMe m o u = false /\ state_pred CatFnd m o u = false /\
+  state_pred CatGrp m o u = N.eqb o u /\ state_pred CatSys m o u = N.eqb o u /\
+  state_pred CatP2P m o u = m || N.eqb o u.
+Proof. intros m o u. repeat split. Qed.
+
+(* in ANY state (hence after any history): the accepted suspension / resumption (b) of an existing account u
+   sets the read-only bit of the loaded group topic to b iff u is its OWNER (a plain member's suspension leaves
+   it as it was), never touches 'sys' (whether u is one of its subscribers or not), sets the bit of exactly the
+   loaded peer-to-peer topics u is a party of ([mark_p2p], c03s_p2p_marking), and changes nothing else but the
+   account's state *)
+Theorem c03s_suspension_marks_exactly : forall x u b a, u <> 0%N ->
+  alookup u (users (st (xb x))) = Some a -> memN u (x_susp x) = negb b ->
+  let x' := suspend x NoFault u b in
+  x_ro x' = match ca (xb x) with Some c => if N.eqb (c_owner c) u then b else x_ro x | None => x_ro x end /\
+  x_sys_ro x' = x_sys_ro x /\
+  x_p2p x' = map (mark_p2p u b) (x_p2p x) /\
+  xb x' = xb x /\ x_del x' = x_del x /\ x_susp x' = susp_upd (x_susp x) u b /\ x_me x' = x_me x /\ x_fnd x' = x_fnd x /\
+  x_sys_seqid x' = x_sys_seqid x /\ x_sys_lastid x' = x_sys_lastid x /\ x_sys_msgs x' = x_sys_msgs x /\
+  x_sys_subs x' = x_sys_subs x.
+Proof. exact suspend_exact. Qed.
+Theorem c03s_p2p_marking : forall u b p,
+  pt_b (mark_p2p u b p) = pt_b p /\
+  pt_ro (mark_p2p u b p) = match ca (pt_b p) with
+                           | Some c => if is_member c u || N.eqb (c_owner c) u then b else pt_ro p
+                           | None => pt_ro p
+                           end.
+Proof. intros u b p. split; [apply mark_p2p_b|apply mark_p2p_ro]. Qed.
+
+(* a request that does not change the account's state - unknown account, account already in that state, a failed
+   store call (any fault plan) - marks nothing: the whole state is what it was *)
+Theorem c03s_idle_suspension_changes_nothing : forall x f u b, suspend x f u b = x \/
+  (u <> 0%N /\ memN u (x_susp x) = negb b /\ suspend x f u b = mark_topics (set_susp (susp_upd (x_susp x) u b) x) u b).
+Proof. exact suspend_cases. Qed.
+
+(* 'sys' is never read-only: after ANY history - suspensions and resumptions of its subscribers, of owners, of
+   parties, faults, crashes - ... *)
+Theorem c03s_sys_never_read_only : forall s subs ps h, fresh s -> Forall fresh ps ->
+  x_sys_ro (fst (xrun dr nr sm (xinit_pop s subs ps) h)) = false.
+Proof. intros s subs ps h F FP. destruct (c03x_reachable s subs ps h F FP) as [_ [_ [_ [R _]]]]. exact R. Qed.
+
+(* ... hence a publish to sys by any logged-in author, attached to nothing, is acknowledged with the next number
+   and stored, whatever accounts are suspended (the only other output is the reply of a delete that was in flight) *)
+Theorem c03s_sys_accepts_after_any_history : forall s subs ps h sid content, fresh s -> Forall fresh ps ->
+  sess_uid sm sid <> 0%N ->
+  let x := fst (xrun dr nr sm (xinit_pop s subs ps) h) in
+  let x1 := fst (del_finish x) in
+  xstep dr nr sm x (EPubSys NoFault sid content) =
+    (set_sys (x_sys_lastid x1 + 1) (x_sys_lastid x1 + 1)
+             (x_sys_msgs x1 ++ [mkMsg (x_sys_lastid x1 + 1) (sess_uid sm sid) content 0]) x1,
+     snd (del_finish x) ++ (sid, Ctrl 202 [(P_seq, x_sys_lastid x1 + 1)]) :: sys_push x1 (x_sys_lastid x1 + 1) (sess_uid sm sid)).
+Proof.
+  intros s subs ps h sid content F FP U x x1. apply (xstep_pub_sys_accepts dr nr sm); [|exact U].
+  apply (c03x_reachable s subs ps h F FP).
+Qed.
+
+(* peer-to-peer topics.  [p2p_accepts sm p sid]: the session's user is a party, the topic is not read-only
+   (no party suspended since it was loaded), it is loaded, the session is attached and the author's want and
+   given both have W *)
+Theorem c03s_p2p_accepted_iff : forall x k p sid content noecho, nth_error (x_p2p x) k = Some p -> inv_num (pt_b p) ->
+  ((exists n, first_reply (snd (p2p_step dr nr sm x k NoFault (PPub sid content noecho))) sid = Some (Ctrl 202 [(P_seq, n)]))
+   <-> p2p_accepts sm p sid = true).
+Proof. exact (p2p_accept_iff dr nr sm). Qed.
+Theorem c03s_p2p_accepted_iff_history : forall s subs ps h k p sid content noecho, fresh s -> Forall fresh ps ->
+  let x := fst (xrun dr nr sm (xinit_pop s subs ps) h) in
+  nth_error (x_p2p x) k = Some p ->
+  ((exists n, first_reply (snd (p2p_step dr nr sm x k NoFault (PPub sid content noecho))) sid = Some (Ctrl 202 [(P_seq, n)]))
+   <-> p2p_accepts sm p sid = true).
+Proof.
+  intros s subs ps h k p sid content noecho F FP x E. apply c03s_p2p_accepted_iff; [exact E|].
+  destruct (c03x_reachable s subs ps h F FP) as [_ [_ [_ [_ P]]]].
+  exact (proj1 (nth_error_Forall _ _ _ _ P E)).
+Qed.
+Theorem c03s_p2p_rejected_no_effect : forall x k p f sid content noecho, nth_error (x_p2p x) k = Some p -> pt_inv p ->
+  p2p_addressable sm p sid = true -> p2p_accepts sm p sid = false ->
+  exists code, 400 <= code /\
+    snd (p2p_step dr nr sm x k f (PPub sid content noecho)) = [(sid, Ctrl code [])] /\
+    p2p_stores (fst (p2p_step dr nr sm x k f (PPub sid content noecho))) = p2p_stores x /\
+    st (xb (fst (p2p_step dr nr sm x k f (PPub sid content noecho)))) = st (xb x) /\
+    x_sys_msgs (fst (p2p_step dr nr sm x k f (PPub sid content noecho))) = x_sys_msgs x /\
+    (is_crash f = false ->
+     fst (p2p_step dr nr sm x k f (PPub sid content noecho)) =
+       set_p2p (upd_nth k (mkPT (mkState (st (pt_b p)) (ca (pt_b p)) 0) (pt_ro p)) (x_p2p x)) x).
+Proof. exact (p2p_reject_no_effect dr nr sm). Qed.
 
 (* both halves together: after ANY history of the wrapper model - requests with Fail/Crash at any adapter call,
    deletions in two halves, suspensions, publishes to me/fnd/sys - that avoids the two named triggers, a publish
    is acknowledged iff no delete is in flight, the topic is not read-only, the session is attached and the
    author's STORED want and STORED given both have W *)
-Theorem c03x_accepted_iff_stored_history : forall s h sid content noecho, fresh s -> wf_store s ->
-  xsafe_run dr nr sm (xinit s) h ->
-  let x := fst (xrun dr nr sm (xinit s) h) in
+Theorem c03x_accepted_iff_stored_history : forall s subs ps h sid content noecho, fresh s -> Forall fresh ps -> wf_store s ->
+  xsafe_run dr nr sm (xinit_pop s subs ps) h ->
+  let x := fst (xrun dr nr sm (xinit_pop s subs ps) h) in
   ((exists n, first_reply (snd (xstep dr nr sm x (EBase NoFault (OPub sid content noecho)))) sid = Some (Ctrl 202 [(P_seq, n)]))
    <-> xaccepts_stored sm x sid = true).
 Proof.
-  intros s h sid content noecho F W SR x.
-  rewrite <- (xaccepts_stored_eq sm x sid (cohx_xrun dr nr sm h (xinit s) SR W)).
-  apply c03x_accepted_iff_history. exact F.
+  intros s subs ps h sid content noecho F FP W SR x.
+  rewrite <- (xaccepts_stored_eq sm x sid (cohx_xrun dr nr sm h (xinit_pop s subs ps) SR W)).
+  apply c03x_accepted_iff_history; assumption.
 Qed.
 End C03.
 
@@ -189,6 +288,15 @@ Print Assumptions c03x_sys_accepts_without_attachment.
 Print Assumptions c03x_sys_failed_stores_nothing.
 Print Assumptions c03x_suspension_marks_loaded_topic_partial.
 Print Assumptions c03x_accepted_iff_stored_history.
+Print Assumptions c03s_suspension_test_by_category.
+Print Assumptions c03s_suspension_marks_exactly.
+Print Assumptions c03s_p2p_marking.
+Print Assumptions c03s_idle_suspension_changes_nothing.
+Print Assumptions c03s_sys_never_read_only.
+Print Assumptions c03s_sys_accepts_after_any_history.
+Print Assumptions c03s_p2p_accepted_iff.
+Print Assumptions c03s_p2p_accepted_iff_history.
+Print Assumptions c03s_p2p_rejected_no_effect.
 
 (* The full statement - the decision follows the STORED grant after EVERY history - is refuted by the
    faithful model (and replayed on the real code, findings/C03.md): *)
@@ -265,3 +373,59 @@ Proof.
   vm_compute in H. specialize (H eq_refl). discriminate H.
 Qed.
 Print Assumptions c03_suspension_survives_reload_refuted.
+
+(* "A loaded topic is read-only iff an account that satisfies the test of its category is currently suspended":
+   the 'sys' part holds after every history (c03s_sys_never_read_only), and so does the marking itself
+   (c03s_suspension_marks_exactly, in every state).  As an invariant of every reachable state the statement is
+   refuted for the group topic (above) and for peer-to-peer topics, in two ways: the bit does not survive a
+   reload, and the resumption of ONE party clears the bit although the OTHER party is still suspended
+   (hub.topicsStateForUser(a, false) -> markReadOnly(false) on every p2p topic of a).  findings/C03.md #4, #5. *)
+Definition c03s_read_only_iff_suspended_statement : Prop :=
+  forall (sm : sessmap) s subs ps h, fresh s -> Forall fresh ps ->
+  let x := fst (xrun (fun _ _ => None) (fun r => r) sm (xinit_pop s subs ps) h) in
+  match ca (xb x) with Some c => x_ro x = memN (c_owner c) (x_susp x) | None => True end /\
+  x_sys_ro x = false /\
+  Forall (fun p => match ca (pt_b p) with
+                   | Some c => pt_ro p = existsb (fun e => memN (fst e) (x_susp x)) (c_users c)
+                   | None => True
+                   end) (x_p2p x).
+
+(* users 1 and 2 (JRWPA/JRWPA each) are the parties of the peer-to-peer topic *)
+Definition c03s_w_p2p : store :=
+  ad_sub_create (ad_sub_create (mkStore true 0 0 0 0 0 [] [] [] [(1%N, 47%N); (2%N, 47%N)]) 1%N 31%N 31%N) 2%N 31%N 31%N.
+Example c03s_w_p2p_fresh : fresh c03s_w_p2p.
+Proof. split; reflexivity. Qed.
+(* user 1 attaches; 1 is suspended, 2 is suspended, 1 is resumed: the topic is writable, 2 is still suspended *)
+Definition c03s_w_hist_peer : list xev :=
+  [EP2P 0 NoFault (PSub 1%N); ESuspend NoFault 1%N true; ESuspend NoFault 2%N true; ESuspend NoFault 1%N false].
+(* 1 is suspended while the topic is not loaded; 2 attaches *)
+Definition c03s_w_hist_reload : list xev := [ESuspend NoFault 1%N true; EP2P 0 NoFault (PSub 2%N)].
+
+Theorem c03s_read_only_iff_suspended_refuted_by_peer_resumed : ~ c03s_read_only_iff_suspended_statement.
+Proof.
+  intros H. destruct c03_w_fresh1 as [F _].
+  specialize (H c03_w_sm c03_w_store [] [c03s_w_p2p] c03s_w_hist_peer F (Forall_cons _ c03s_w_p2p_fresh (Forall_nil _))).
+  cbv zeta in H. destruct H as [_ [_ H]]. vm_compute in H. inversion H as [|p l HP HL]. discriminate HP.
+Qed.
+Theorem c03s_read_only_iff_suspended_refuted_by_reload : ~ c03s_read_only_iff_suspended_statement.
+Proof.
+  intros H. destruct c03_w_fresh1 as [F _].
+  specialize (H c03_w_sm c03_w_store [] [c03s_w_p2p] c03s_w_hist_reload F (Forall_cons _ c03s_w_p2p_fresh (Forall_nil _))).
+  cbv zeta in H. destruct H as [_ [_ H]]. vm_compute in H. inversion H as [|p l HP HL]. discriminate HP.
+Qed.
+Print Assumptions c03s_read_only_iff_suspended_refuted_by_peer_resumed.
+Print Assumptions c03s_read_only_iff_suspended_refuted_by_reload.
+
+(* the population of the correspondence runs: the suspended account is a plain member of the group topic, a
+   party of a peer-to-peer topic and a subscriber of 'sys' at once; the group topic stays writable, the
+   peer-to-peer topic becomes read-only (its publishes are refused), 'sys' accepts *)
+Example c03s_ex_population :
+  let sm := c03_w_sm in
+  let h := [EBase NoFault (OSub 1%N [] false); EBase NoFault (OSub 2%N [] false);
+            EP2P 0 NoFault (PSub 1%N); EP2P 0 NoFault (PSub 2%N); ESuspend NoFault 2%N true] in
+  let x := fst (xrun (fun _ _ => None) (fun r => r) sm (xinit_pop c03_w_store [2%N] [c03s_w_p2p]) h) in
+  x_ro x = false /\ x_sys_ro x = false /\ map pt_ro (x_p2p x) = [true] /\ x_susp x = [2%N] /\
+  xaccepts sm x 1%N = true /\
+  match nth_error (x_p2p x) 0 with Some p => p2p_accepts sm p 1%N | None => true end = false /\
+  snd (xstep (fun _ _ => None) (fun r => r) sm x (EPubSys NoFault 1%N 7%N)) = [(1%N, Ctrl 202 [(P_seq, 1)]); (0%N, Push 1 1%N [2%N])].
+Proof. vm_compute. repeat split. Qed.
